@@ -184,9 +184,9 @@ func decodeCiphertext(repr string) ([]byte, error) {
 		return nil, err
 	}
 
-	// The minimum length for the envelope is 16 bytes (4 bytes each for the magic number, version, length, and
-	// checksum)
-	if len(bin) < 16 {
+	// The minimum length for the envelope is 12 bytes (4 bytes each for the magic number, version, and checksum;
+	// the ciphertext itself may be empty)
+	if len(bin) < 12 {
 		return nil, io.EOF
 	}
 
